@@ -31,16 +31,14 @@ def main(argv=None) -> int:
         mod = engine.load_prop(pid)
         out = {}
         for i in [int(x) for x in a.digests.split(",") if x != ""]:
-            rng = random.Random(engine.splitmix(a.seed, pid, i))
-            scn = mod.generate(rng, a.tier)
+            scn = engine.gen_scenario(mod, pid, a.seed, i, a.tier)
             o = engine.run_one(mod, scn)
             out[i] = o.get("digest") if not o.get("harness_error") else "harness:" + str(o.get("harness_error"))[:200]
         print("DIGESTS " + json.dumps(out))
         return 0
     if a.one is not None:
         mod = engine.load_prop(pid)
-        rng = random.Random(engine.splitmix(a.seed, pid, a.one))
-        scn = mod.generate(rng, a.tier)
+        scn = engine.gen_scenario(mod, pid, a.seed, a.one, a.tier)
         print(json.dumps(scn, indent=1, default=engine._default))
         o = engine.run_one(mod, scn)
         print(json.dumps({k: v for k, v in o.items() if k != "sample"}, indent=1, default=engine._default)[:6000])
